@@ -30,7 +30,7 @@ TRUSTED = ["translator tools/tr/optable_tr.py (operator table of opcode_ins.py)"
            "harness tools/props/c21.py, tools/vlib/javadiff.py (assembler, interpreter, javac/java 17 runner)"]
 
 COQ_HEADER = "Require Import V.Dad.OpSemantics."
-I_EDGE = [0, 1, -1, 2, 7, -7, 31, 32, 33, 255, 65535, 2**31 - 1, -2**31, 0x12345678, -0x12345678]
+I_EDGE = [0, 1, -1, 2, 7, -7, 31, 32, 33, 200, 255, 40000, 65535, 2**31 - 1, -2**31, 0x12345678, -0x12345678]
 J_EDGE = [0, 1, -1, 5, -5, 63, 64, 2**31, 2**32 + 7, 2**63 - 1, -2**63, 0x123456789ABCDEF, -0x123456789ABCDEF]
 
 
@@ -183,7 +183,7 @@ def gen_structured(rng, tier, ctx):
     """case = (methods, argument tuples per method); several methods share one class and one compiler run"""
     cases = []
     for b in range(30 if tier == "thorough" else 4):
-        methods = [J.gen_method(rng, i) for i in range(4)] + [J.gen_pattern(rng, 4 + i) for i in range(2)] + [J.gen_const_fold(rng, 6 + i) for i in range(6)]
+        methods = [J.gen_method(rng, i) for i in range(4)] + [J.gen_pattern(rng, 4 + i) for i in range(2)] + [J.gen_const_fold(rng, 6 + i) for i in range(6)] + [J.gen_cast_chain(rng, 12 + i) for i in range(9)] + [J.gen_switch_shared(rng, 21 + i) for i in range(4)]
         argsets = []
         for m in methods:
             argsets.append([tuple(rng.choice(I_EDGE) if t == "I" else rng.choice(J_EDGE) for t in m["params"]) for _ in range(8)])
